@@ -106,6 +106,9 @@ func (x *Exec) onStack(fn *ssa.Function) bool {
 
 // inline executes the callee body in the caller's state.
 func (x *Exec) inline(st *State, callee *ssa.Function, args []Value, bindings []Value) Value {
+	if x.pathInline && x.specMode == 0 {
+		panic(&inlineRequest{callee: callee, args: args, bindings: bindings})
+	}
 	nfr := &frame{fn: callee, args: args, bindings: bindings}
 	if ct := x.Prog.Contracts[QualName(callee)]; ct != nil {
 		nfr.contract = ct // loop unroll hints still apply
